@@ -1529,35 +1529,12 @@ pub fn handle_trailer(
         if length_framed {
             return;
         }
-        let start = kawa.storage.end as u32;
-        let end_before = kawa.storage.end;
-        if kawa.storage.write_all(&k).is_err() || kawa.storage.write_all(&v).is_err() {
-            metric_reject(RejectReason::OversizedPseudoValue);
-            invalid_trailers = true;
-            return;
-        }
-        // Both writes succeeded, so storage.end advanced by exactly key+value
-        // and the two slices tile [start, end) contiguously (key first, then
-        // value at `start + len_key`).
-        debug_assert_eq!(
-            kawa.storage.end,
-            end_before + k.len() + v.len(),
-            "trailer write must advance storage.end by key.len() + value.len()"
-        );
-        let len_key = k.len() as u32;
-        let len_val = v.len() as u32;
-        debug_assert!(
-            (start + len_key + len_val) as usize <= kawa.storage.end,
-            "trailer key+val slices must stay within the written storage region"
-        );
-        let key = Store::Slice(Slice {
-            start,
-            len: len_key,
-        });
-        let val = Store::Slice(Slice {
-            start: start + len_key,
-            len: len_val,
-        });
+        // The trailer fields get their own allocation: the stream's buffer may
+        // still be full of body the peer has not drained (trailers are not flow
+        // controlled), and a field that does not fit must not fail the stream.
+        // Bounded by `max_decoded` above.
+        let key = Store::from_slice(&k);
+        let val = Store::from_slice(&v);
         kawa.push_block(Block::Header(Pair { key, val }));
     });
 
